@@ -72,6 +72,11 @@ func (rt *Transfer) recvFile1(f *File) error {
 }
 
 func (rt *Transfer) openLocalFile(f *File) (*os.File, error) {
+	if st, err := rt.DestRoot.Lstat(f.Name); err == nil && !st.Mode().IsRegular() && !st.IsDir() {
+		// A symlink, fifo, socket or device which the received file will
+		// replace: never a basis file (and opening a fifo would block).
+		return nil, nil
+	}
 	in, err := rt.DestRoot.Open(f.Name)
 	if err != nil {
 		return nil, err
